@@ -118,7 +118,7 @@ def finish_process(lines, n_viol, broken):
 # ------------------------------------------------------------------------ E1 driver
 def run_e1(prop, tier, seed, slices, props=None, extra_factory=None,
            conformance=None, budget_s=None, tape_bound=None, level="model_checking",
-           assumptions=(), rule_note="", required_stats=(), chunk=6):
+           assumptions=(), rule_note="", required_stats=(), chunk=6, finish=True):
     """slices: list of (name, iterable of worlds).  Runs everything, triages, writes
     evidence, prints the verdict and exits."""
     from . import e1
@@ -223,10 +223,13 @@ def run_e1(prop, tier, seed, slices, props=None, extra_factory=None,
         "states_counter_saturated": len(states) >= 6_000_000,
     }
     wall = time.time() - t0
-    write_evidence(prop, tier, seed, level, coverage, wall, n_viol, assumptions)
     print(f"{prop} {tier} seed={seed}: worlds={tot['worlds']} executions={tot['runs']} "
           f"states={len(states)} transitions={tot['events']} distinct_outcomes="
           f"{len(sigs)} status={status} capped={capped} wall={wall:.1f}s")
+    if not finish:
+        return {"lines": lines, "n_viol": n_viol, "broken": rep.broken,
+                "coverage": coverage, "assumptions": list(assumptions), "wall": wall}
+    write_evidence(prop, tier, seed, level, coverage, wall, n_viol, assumptions)
     finish_process(lines, n_viol, rep.broken)
 
 
@@ -234,7 +237,7 @@ def run_e1(prop, tier, seed, slices, props=None, extra_factory=None,
 def run_generic(prop, tier, seed, items, job, extra=(), engine="e3", level="model_checking",
                 rule="", assumptions=(), required_stats=(), chunk=4, budget_s=None,
                 exhaustive_note=None, confirm_job=None, states_key="states",
-                transitions_key="transitions"):
+                transitions_key="transitions", finish=True):
     """items -> job(item, *extra) in worker processes.  A job returns a dict with
     integer counters under 'stats' (summed), 'states'/'transitions'/'validated'
     counters, optional 'distinct' (list of hashes, unioned), 'violations' (list of
@@ -295,10 +298,13 @@ def run_generic(prop, tier, seed, items, job, extra=(), engine="e3", level="mode
     if exhaustive_note:
         coverage["exhaustive_note"] = exhaustive_note
     wall = time.time() - t0
-    write_evidence(prop, tier, seed, level, coverage, wall, n_viol, assumptions)
     print(f"{prop} {tier} seed={seed}: items={tot['items']} states={tot['states']} "
           f"transitions={tot['transitions']} validated={tot['validated']} "
           f"distinct={len(distinct)} capped={capped} wall={wall:.1f}s")
+    if not finish:
+        return {"lines": lines, "n_viol": n_viol, "broken": rep.broken,
+                "coverage": coverage, "assumptions": list(assumptions), "wall": wall}
+    write_evidence(prop, tier, seed, level, coverage, wall, n_viol, assumptions)
     finish_process(lines, n_viol, rep.broken)
 
 
@@ -317,3 +323,35 @@ def generic_replay(prop, path, job, extra=()):
         return 1
     print("not reproduced")
     return 0
+
+
+def combine_and_finish(prop, tier, seed, parts, level="model_checking"):
+    """parts: list of (label, result dict from run_e1/run_generic with finish=False)."""
+    cov = {"parts": {}}
+    lines, broken, n_viol, wall, assumptions = [], [], 0, 0.0, []
+    states = transitions = validated = evaluations = distinct = 0
+    samples = []
+    exhaustive = True
+    for label, r in parts:
+        c = r["coverage"]
+        cov["parts"][label] = {k: v for k, v in c.items() if k != "samples"}
+        states += c.get("states", 0)
+        transitions += c.get("transitions", 0)
+        validated += c.get("traces_validated_against_impl", 0)
+        evaluations += c.get("evaluations", 0)
+        distinct += c.get("distinct_nontrivial", 0)
+        samples += [dict(part=label, sample=s) for s in c.get("samples", [])[:3]]
+        exhaustive = exhaustive and bool(c.get("exhaustive"))
+        lines += r["lines"]
+        broken += r["broken"]
+        n_viol += r["n_viol"]
+        wall += r["wall"]
+        assumptions += [f"[{label}] {a}" for a in r["assumptions"]]
+    cov.update({"states": max(states, 1), "transitions": max(transitions, 1),
+                "traces_validated_against_impl": validated, "samples": samples,
+                "evaluations": max(evaluations, 1), "distinct_nontrivial": distinct,
+                "exhaustive": exhaustive,
+                "rule": "; ".join(f"[{l}] {r['coverage'].get('rule', '')}"
+                                  for l, r in parts)})
+    write_evidence(prop, tier, seed, level, cov, wall, n_viol, assumptions)
+    finish_process(lines, n_viol, broken)
